@@ -93,8 +93,8 @@ class C17(Config):
               "Local Open Scope Z_scope.")
     bin = "c17"
     release_too = True
-    n_tags = 60
-    classes = {1: "C17-classify-confirmatory-flip", 2: "C17-canonical-zero-bound-hang"}
+    n_tags = 59
+    classes = {1: "C17-classify-confirmatory-flip"}
     shard_size = 1500
     rule = ("every public function of zcash_pool_migration::scheduling and zcash_protocol::zip318::{expiry_height, "
             "AnchorBucketInterval, classify, to_code/from_code} driven by a replaying RngCore over recorded u64 word "
@@ -110,12 +110,11 @@ class C17(Config):
     ]
     assumptions = ["usize is 64 bits (the harness target)",
                    "quick tier runs the debug profile; thorough also runs the release profile (the case carries the overflow-check flag)",
-                   "classify cases use PoolMigrationConstants with max_residual_value > 0 (the zero bound is probed separately: known finding class 2)"]
+                   "the zero-lower-bound probes run in a thread with a timeout (regression cases for the fixed hang, commit 7dcaa30)"]
     partial_clauses = [
         "DelayDistribution::draw: the f64/libm candidate delay is an oracle value; proved: acceptance <= cap, words consumed, heights monotone/saturating for every oracle",
         "bridge theorem (run_case => prop_case) covers all 20 operations; for wake-ups it is guarded by bf_consistent (the harness-side brute-force value carried by the case agrees with the Spec.v brute force)",
         "classify monotonicity holds under the documented guard (no newly negative confirmatory clause); the unguarded statement is refuted (known finding class 1)",
-        "is_canonical_denomination / classify terminate except on value 0 under a zero lower bound (known finding class 2, canonical_opt_none_iff)",
         "draw_anchor_age: both overflow profiles modelled (oc flag); the age-overflow branch needs > 2^26 zero words and is not exercised by the harness (C17_anchor_profiles_agree shows the profiles coincide below that)",
         "earliest_broadcast_height: exact threshold proved; at saturation it returns u32::MAX although no tip has a candidate (C17_earliest_saturated, documented-guarantee gap, not part of the property text)",
     ]
